@@ -7,6 +7,7 @@ use serde_json::Value as J;
 pub fn run(rep: &Report) -> bool {
     match rep.prop.as_str() {
         "C01" => props::c01::run(rep),
+        "C03" => props::c03::run(rep),
         "C16" => props::c16::run(rep),
         "C17" => props::c17::run(rep),
         "C19" => props::c19::run(rep),
@@ -48,6 +49,7 @@ pub fn replay(rep: &Report, path: &str) -> i32 {
     let stage = j["stage"].as_str().unwrap_or("").to_string();
     match rep.prop.as_str() {
         "C01" => props::c01::replay(rep, &stage, &j),
+        "C03" => props::c03::replay(rep, &stage, &j),
         "C16" => props::c16::replay(rep, &stage, &j),
         "C17" => props::c17::replay(rep, &stage, &j),
         "C19" => props::c19::replay(rep, &stage, &j),
@@ -60,6 +62,9 @@ pub fn replay(rep: &Report, path: &str) -> i32 {
 
 /// `vcheck --child <kind>`: kinds are "<property>-<what>", handled by the property's module.
 pub fn child_dispatch(kind: &str, payload: &J) -> Option<J> {
+    if kind == "run-prog" {
+        return crate::runner::child_run_prog(payload);
+    }
     let prop = kind.split('-').next().unwrap_or("");
     match prop {
         "c16" => props::c16::child(kind, payload),
